@@ -68,6 +68,9 @@ def gen_case(rng, tier, profile=None):
         elif x < 0.8:
             ops.append({'op': 'run', 'sel': rng.randrange(nsel),
                         'bind': {'e1': rng.randint(0, 9), 'e2': [rng.randint(0, 5) for _ in range(rng.choice([0, 1, 2, 3]))]}})
+        elif x < 0.86:
+            # a call that fails (an argument of the wrong type): the function item must be usable afterwards
+            ops.append({'op': 'badcall', 'fn': rng.randrange(12), 'arg': rng.choice(['x', '', 'NaN'])})
         else:
             ops.append({'op': 'call', 'fn': rng.randrange(12), 'seed': rng.randrange(1 << 30)})
     # always end with calls on everything created, in a seeded order
@@ -279,6 +282,20 @@ def run_case(case, world):
                 if len(pool) < 12:
                     pool.append((it, mf, fty[0], ML.render(ast), bind, sel_flags))
             shapes.append('run')
+        elif kind == 'badcall':
+            if not pool:
+                continue
+            it, mf, ptypes, src, bind, mkflags = pool[op['fn'] % len(pool)]
+            if not ptypes:
+                continue
+            world.event(('badcall', idx, op['fn'] % len(pool)))
+            try:
+                it(*[op['arg'] for _ in ptypes], context=elementpath.XPathContext(None, item=1))
+                world.probe('badcall-accepted')
+            except Exception as e:
+                world.event(('badcall-error', idx, canon_exc(e)))     # expected; only the later calls are judged
+                world.probe('badcall-raised')
+            shapes.append('badcall')
         elif kind == 'call':
             if not pool:
                 continue
@@ -301,9 +318,9 @@ def run_case(case, world):
                 got = _engine_items(got)
             except Exception as e:
                 world.event(('error', idx, canon_exc(e)))
-                if is_ep_error(e):
-                    violate('MODEL_MISMATCH', 'python-call', 'function item from %s %r called with %r raised %r, '
-                            'reference gives %r' % (src, bind, args, canon_exc(e), exp), flags, ['engine-error'])
+                violate('MODEL_MISMATCH', 'python-call', 'function item from %s %r called with %r raised %r, '
+                        'reference gives %r' % (src, bind, args, canon_exc(e), exp), flags,
+                        ['engine-error'] + ([] if is_ep_error(e) else ['non-ep-exception']))
                 continue
             world.event(('result', idx, got))
             if _strip_fn(got) != _strip_fn(exp):
